@@ -429,6 +429,7 @@ type vfRecGenOpt struct {
 	maxEv                                      int
 	cont                                       int // 0 never, 1 sometimes, 2 always
 	variants                                   bool
+	scale                                      bool // sometimes a configuration at the scale the daemon ships with (9 fps, max-secs in minutes)
 }
 
 func vfGenRecCfg(t *rapid.T, o vfRecGenOpt) vfRecCfg {
@@ -454,6 +455,14 @@ func vfGenRecCfg(t *rapid.T, o vfRecGenOpt) vfRecCfg {
 		}
 		c.Min = rapid.IntRange(0, 20).Draw(t, "minL")
 		c.Max = c.Min + rapid.IntRange(0, 20).Draw(t, "maxL")
+	}
+	if o.scale && rapid.IntRange(0, 15).Draw(t, "scale") == 0 {
+		// the scale of the shipped configuration: frame counts in the hundreds and thousands
+		c.FPS = rapid.SampledFrom([]int{9, 9, 30}).Draw(t, "fpsS")
+		c.Preview = rapid.IntRange(1, 5).Draw(t, "previewS")
+		c.Trigger = rapid.IntRange(1, 3).Draw(t, "triggerS")
+		c.Min = rapid.IntRange(1, 10).Draw(t, "minS")
+		c.Max = rapid.SampledFrom([]int{30, 60, 120, 600}).Draw(t, "maxS")
 	}
 	c.Edge = rapid.IntRange(0, 1).Draw(t, "edge")
 	c.W = rapid.IntRange(2+2*c.Edge, 6).Draw(t, "w")
@@ -510,6 +519,10 @@ func vfGenEvents(t *rapid.T, c vfRecCfg, o vfRecGenOpt) []vfEv {
 		for i := 0; i < n; i++ {
 			ev = append(ev, stamp(vfEv{K: vfEvFrame, M: m}))
 		}
+	}
+	if o.scale && maxF > 200 {
+		// room for a couple of recordings that reach the cap
+		o.maxEv = 2*maxF + 400
 	}
 	nseg := rapid.IntRange(1, 12).Draw(t, "segments")
 	for s := 0; s < nseg && len(ev) < o.maxEv; s++ {
